@@ -220,8 +220,12 @@ def decide_X(prop, tier, seed, t0, replay):
     info = chan_x.run(seed, tier, prims)
     an, req = chan_x.analyse(info, prims)
     oracle = [o for o in an["oracle"] if o["property"] == prop]
+    # the generator model whose programs the machine runs is tied by the IR correspondence (G part of channel L)
+    cargo_build(["chan_l"])
+    linfo = chan_l.run(seed, tier)
+    lan = chan_l.analyse(linfo["dirs"], prop)
     proof_ok = not pr["problems"]
-    tie_ok = an["n_disagree"] == 0 and not info["errors"]
+    tie_ok = an["n_disagree"] == 0 and not info["errors"] and lan.get("n_disagree", 0) == 0 and not linfo["errors"]
     rc = 0; violations = 0; lines = []
 
     def history(line):
@@ -238,6 +242,14 @@ def decide_X(prop, tier, seed, t0, replay):
         if not proof_ok:
             what.append("proof obligations that no longer check: " + " | ".join(pr["problems"])[:2500])
         body = f"# kind: model-vs-implementation / proof break, no failing input found (VERIF_SEED={seed} tier={tier})\n"
+        if lan.get("n_disagree", 0):
+            dl = lan["disagreements"][0]
+            la, lb = dl["impl"].split("\t"), dl["model"].split("\t")
+            k = next((i for i in range(min(len(la), len(lb))) if la[i] != lb[i]), min(len(la), len(lb)))
+            what.append(f"channel L/G (generator / layout model): {lan['n_disagree']} histories disagree; first at `{dl['request']}`, line {k}: impl `{(la[k] if k < len(la) else '<end>')[:200]}` model `{(lb[k] if k < len(lb) else '<end>')[:200]}`")
+            if not an["disagreements"]:
+                body += "# " + "\n# ".join(what) + "\n" + "\n".join(dl["requests"]) + "\n"
+                what = []
         if not tie_ok:
             d = an["disagreements"][0] if an["disagreements"] else None
             what.append(f"correspondence channel X: {an['n_disagree']} operations disagree; errors: {[e[:300] for e in info['errors'][:2]]}")
@@ -259,7 +271,8 @@ def decide_X(prop, tier, seed, t0, replay):
         "evaluations": an["ops"], "distinct_nontrivial": an["nontrivial"],
         "rule": "operations = API-level calls (new/new_uninit/get/set/unpack/drop/4 conversion forms/clone/clone_from/serde round trips/placements) on generated modules compiled in 3 builds (debug+hook, release+hook, release without hook), each compared with the Lean machine's prediction (values, drop multiset, primitive-access multiset); distinct by request text; non-trivial = everything but plain constructors and reads",
         "samples": an["samples"][:3], "traces_validated_against_impl": an["ops"], "modules": an["modules"], "ops_by_kind": an["by_op"],
-        "primitive_accesses_checked": an["accesses"], "disagreements": an["n_disagree"], "oracle_hits": len(oracle),
+        "primitive_accesses_checked": an["accesses"], "disagreements": an["n_disagree"] + lan.get("n_disagree", 0), "oracle_hits": len(oracle),
+        "generator_histories_compared": lan["histories"],
         "builds": {k: {kk: vv for kk, vv in v.items() if kk != "dir"} for k, v in info["builds"].items()},
         "translated_primitives": prims, "channel_cached": info.get("cached", False), "exhaustive": False,
     }
